@@ -99,6 +99,7 @@ func (o *Oracles) onPark(w *World, kind string) {
 	}
 	if c.forceStopped {
 		w.violate("C12", "restart-after-force-stop", "pipeline was restarted automatically after a force stop")
+		w.violate("C10", "restart-after-force-stop", "pipeline was restarted automatically after a force stop (a force stop is a fatal cause: degraded, never restarted)")
 	}
 }
 
